@@ -65,10 +65,10 @@ type dParam struct {
 }
 
 type dCond struct {
-	name   string
-	params []dParam
-	expr   []string // expression tokens (texts), joined without separator
-	closeSameLine bool // the closing brace stands on the last expression line
+	name          string
+	params        []dParam
+	expr          []string // expression tokens (texts), joined without separator
+	closeSameLine bool     // the closing brace stands on the last expression line
 }
 
 type dDoc struct {
@@ -76,8 +76,8 @@ type dDoc struct {
 	schema string
 	types  []dType
 	conds  []dCond
-	full   bool // layout: every optional blank present, wider indentation
-	style  int  // 2: exactly the printer's layout (blank line before types and conditions, final line break)
+	full   bool   // layout: every optional blank present, wider indentation
+	style  int    // 2: exactly the printer's layout (blank line before types and conditions, final line break)
 	omit   string // error-recovery variant: a required part that is missing from text and tree
 }
 
